@@ -706,6 +706,43 @@ def rule_r10(repo, run):
     run.floor(R, "file name templates compared", n, 6)
 
 
+def rule_r11(repo, run):
+    R = run.rule("C15.R11", "a file is written once per run: write_output_file looks the path up in a registry of the run "
+                            "(a field of the Config) and refuses the second write before the file is opened")
+    um = repo.module("util")
+    fn = um.func("WrapperMixin.write_output_file")
+    opens = [c for c in ast.walk(fn) if isinstance(c, ast.Call) and pyflow.is_name(c.func, "open")]
+    if len(opens) != 1:
+        raise AnalysisError("C15.R11: the open() of write_output_file was not found")
+    guards = []
+    for i in ast.walk(fn):
+        if isinstance(i, ast.If) and i.lineno < opens[0].lineno and any(isinstance(x, ast.Raise) for st in i.body for x in ast.walk(st)) \
+                and any(isinstance(c, ast.Compare) and isinstance(c.ops[0], ast.In) for c in ast.walk(i.test)):
+            guards.append(i)
+    per_run = False
+    for a in ast.walk(fn):
+        if isinstance(a, ast.Assign) and isinstance(a.targets[0], ast.Name) and "self.config" in ast.unparse(a.value):
+            reg = a.targets[0].id
+            if any(any(pyflow.is_name(y, reg) for y in ast.walk(g.test)) for g in guards):
+                per_run = True
+    for g in guards:
+        if "self.config." in ast.unparse(g.test):
+            per_run = True
+    run.check(R, "util.WrapperMixin.write_output_file:written-once", bool(guards) and per_run,
+              "nothing stops a second write of the same path in one run: a library and a class of the same name (or two scopes "
+              "whose file name templates expand alike) share one file, the later wrappers replace the earlier and --cfiles names "
+              "the file twice", um.loc(opens[0]))
+    # the registry is created with the Config, i.e. once per run
+    mm = repo.module("main")
+    ci = mm.func("Config.__init__")
+    fields = set(a.targets[0].attr for a in ast.walk(ci) if isinstance(a, ast.Assign) and isinstance(a.targets[0], ast.Attribute))
+    used = set(re.findall(r"self\.config,\s*['\"](\w+)['\"]|self\.config\.(\w+)", ast.unparse(fn)))
+    used = set(x for t in used for x in t if x)
+    run.check(R, "main.Config.__init__:files-registry", bool(used & fields),
+              "the registry write_output_file consults (%s) is not a field created in Config.__init__: it is not reset per run"
+              % sorted(used), mm.loc(ci))
+
+
 def run(repo, run, tier):
     P = Program(repo)
     rule_r1(repo, run)
@@ -718,5 +755,6 @@ def run(repo, run, tier):
     rule_r8(repo, run)
     rule_r9(repo, run)
     rule_r10(repo, run)
+    rule_r11(repo, run)
     run.assumptions.append("the property's domain requests Fortran only together with C, so a test of the "
                            "Fortran flag is accepted as guard for switching the C flag on")
